@@ -1,6 +1,6 @@
 (* Properties/C15.v — Value comparison is a coherent order (claims only; proofs in Proofs/C15Lemmas.v) *)
 From Coq Require Import QArith.
-From GenqlV Require Import Base.Prelude Model.Compare Spec.OrderSpec Proofs.C15Lemmas.
+From GenqlV Require Import Base.Prelude Model.Compare Spec.OrderSpec Proofs.C15Lemmas Proofs.C15Sym.
 Local Open Scope Z_scope.
 
 (* the result is only ever -1, 0 or 1 *)
@@ -33,6 +33,22 @@ Print Assumptions C15_refl.
 Theorem C15_antisym : forall a b x y, Compare a b = Ok x -> Compare b a = Ok y -> x = - y.
 Proof. exact Compare_antisym. Qed.
 Print Assumptions C15_antisym.
+
+(* antisymmetry at full strength: whenever the comparison answers one way round it answers the
+   other way round too, with the opposite sign — for ANY two values (numbers of any kinds, strings,
+   booleans, NULL, mixed).  So a = b, a < b and a > b are each reported consistently whichever
+   operand is on the left (filters, join keys, sort comparators and IN all rely on it). *)
+Theorem C15_flip : forall a b x, Compare a b = Ok x -> Compare b a = Ok (- x).
+Proof. exact Compare_flip. Qed.
+Print Assumptions C15_flip.
+
+Theorem C15_eq_sym : forall a b, Compare a b = Ok 0 -> Compare b a = Ok 0.
+Proof. exact Compare_eq_sym. Qed.
+Print Assumptions C15_eq_sym.
+
+Theorem C15_lt_gt : forall a b, Compare a b = Ok (-1) <-> Compare b a = Ok 1.
+Proof. exact Compare_lt_gt. Qed.
+Print Assumptions C15_lt_gt.
 
 Theorem C15_trans_num : forall a b c x y z,
   is_num a = true -> is_num b = true -> is_num c = true ->
